@@ -186,6 +186,19 @@ theorem initVol_sys (c : Nat) (hc : c = 13 ∨ c = 16) :
     (initVol c).sys.all (fun u => !sectorFree (quantize (initVtoc 254 c)) (geo c) (u / c) (u % c)) = true := by
   rcases hc with rfl | rfl <;> decide +kernel
 
+/-- C04 on a fresh volume: every sector is a system sector (VTOC, catalog track, track 0) or marked free -/
+theorem initVol_noLeak (c : Nat) (hc : c = 13 ∨ c = 16) : (initVol c).noLeak = true := by
+  have key : ∀ u : Fin (35 * c), (initVol c).sys.contains u.val = true ∨
+      sectorFree (quantize (initVtoc 254 c)) (geo c) (u.val / c) (u.val % c) = true := by
+    rcases hc with rfl | rfl <;> decide +kernel
+  rw [noLeak_iff]
+  intro u _ h2
+  rcases key ⟨u, h2⟩ with h | h
+  · right; left; simpa using h
+  · right; right
+    show u ∈ (List.range (35 * c)).filter (fun u => sectorFree (quantize (initVtoc 254 c)) (geo c) (u / c) (u % c))
+    exact List.mem_filter.2 ⟨List.mem_range.2 h2, h⟩
+
 theorem initVol_wf (c : Nat) (hc : c = 13 ∨ c = 16) : (initVol c).wfB = true := by
   obtain ⟨h1, h2⟩ := initVol_sys c hc
   rw [wfB_iff]
@@ -211,7 +224,8 @@ theorem blank_sec (c u : Nat) : sec (blank c).raw u = if u < 35 * c then zeros 2
 
 /-- `init33` / `init32` on a blank image succeed and establish the invariant of the working state -/
 theorem init_winv {c : Nat} (hc : c = 13 ∨ c = 16) :
-    ∃ w, init (blank c) 254 c = (.ok (), w.toDisk) ∧ WInv w (initSys c) (initLay c) ∧ w.c = c := by
+    ∃ w, init (blank c) 254 c = (.ok (), w.toDisk) ∧ WInv w (initSys c) (initLay c) ∧ w.c = c ∧
+      volOf w.img w.c (initSys c) (initLay c) = initVol c := by
   obtain ⟨ivl, ivlt, ivT, ivS, ivB, ivP, ivM, iv1, iv2, iv6, iv30⟩ := initVtoc_facts c hc
   have hc0 : 0 < c := by rcases hc with rfl | rfl <;> omega
   have h17 : vtocTrack * c < 35 * c := by unfold vtocTrack; omega
@@ -319,7 +333,7 @@ theorem init_winv {c : Nat} (hc : c = 13 ∨ c = 16) :
     rw [hlive, hvtF, getD_quantize (by omega) (by omega), iv6]
     rfl
   refine ⟨w', ?_, ⟨hok', by rw [hcw]; exact hdesc, by rw [hcw, hvol]; exact initVol_wf c hc, ?_, ?_, ?_,
-    by rw [hvw]; exact iv1, by rw [hvw]; unfold Vtoc.lastTrack; rw [iv30]; decide⟩, hcw⟩
+    by rw [hvw]; exact iv1, by rw [hvw]; unfold Vtoc.lastTrack; rw [iv30]; decide⟩, hcw, by rw [hcw]; exact hvol⟩
   · have hcond : ¬ (¬ (254 > 0 ∧ 254 < 255) ∨ ¬ (c = 13 ∨ c = 16 ∨ c = 32)) := by rcases hc with rfl | rfl <;> simp
     have hbc : (blank c).c = c := rfl
     unfold init
